@@ -154,7 +154,6 @@ func buildInitial(spec TreeSpec) (*State, error) {
 		base.Opts.Schema, base.Opts.FileTmpl = "", ""
 	}
 	target := spec.Opts.resolverFile("a")
-	split := false // "case": the generator under test may keep two files apart
 	if merged && spec.Opts.Schema == "case" {
 		probeSt := &State{Layout: spec.Layout, Opts: spec.Opts, Cur: initialSchema(), Gen: initialSchema(), Go: map[string]string{}}
 		err := withProject(probeSt.projectFiles(), func(dir string) error {
@@ -170,10 +169,10 @@ func buildInitial(spec TreeSpec) (*State, error) {
 			}
 			sort.Strings(rf)
 			switch len(rf) {
-			case 1:
+			case 1, 2:
+				// Go rejects a package with file names that differ only in case, so the user
+				// has one file; with two candidates the first is as good as the other
 				target = rf[0]
-			case 2:
-				split = true
 			default:
 				return fmt.Errorf("fresh generation with %v wrote resolver files %v", spec.Opts, rf)
 			}
@@ -218,23 +217,16 @@ func buildInitial(spec TreeSpec) (*State, error) {
 			if len(edited) != 2 || s0.Go[pa] == "" || s0.Go[pb] == "" {
 				return fmt.Errorf("expected %s and %s, got %v", pa, pb, edited)
 			}
-			if split {
-				s0.Go[spec.Opts.resolverFile("a")], s0.Go[spec.Opts.resolverFile("b")] = s0.Go[pa], s0.Go[pb]
-				edited = []string{spec.Opts.resolverFile("a"), spec.Opts.resolverFile("b")}
-			} else {
-				m, err := mergeGo(s0.Go[pa], s0.Go[pb])
-				if err != nil {
-					return err
-				}
-				s0.Go[target] = m
-				edited = []string{target}
+			m, err := mergeGo(s0.Go[pa], s0.Go[pb])
+			if err != nil {
+				return err
 			}
 			for _, p := range []string{pa, pb} {
-				if p != edited[0] && p != edited[len(edited)-1] {
-					delete(s0.Go, p)
-				}
+				delete(s0.Go, p)
 				os.Remove(filepath.Join(dir, p))
 			}
+			s0.Go[target] = m
+			edited = []string{target}
 		}
 		for _, p := range edited {
 			s0.Go[p] = encode(spec.Enc, s0.Go[p])
